@@ -29,6 +29,9 @@ CHECKS = {
     "C09": dict(cat="other", tech="symbolic execution of the real space constructors over a symbolic support mask and symbolic option flags (all constructor paths, z3 LIA counting formulas) and of space.evaluate / GridFunction.evaluate with symbolic vertex coordinates and local points (polynomial identities, z3/cvc5)",
                 text="Bounded symbolic verification: P1 values, RWG normal and SNC tangential components are continuous across a shared edge for all 18 consistently oriented local numberings, all vertex coordinates and every point of the edge; DP0/P1/DUAL0/DUAL1 bases sum to one at every point of every (barycentric) element of a closed mesh and the dual functions take their documented nodal values; on every path of the P1/RWG/SNC/DP0/DP1 constructors over all support masks x option flags on meshes of 4-6 (8) elements the dof count equals an independent counting formula and local2global/global2local are mutually inverse with one entity per dof. One defect repaired (DUAL1), three known findings (empty spaces report one dof).",
                 ref="3/C09"),
+    "C10": dict(cat="other", tech="symbolic execution of GridFunction.evaluate on a space and on its barycentric representation (symbolic coefficients, symbolic local point; RWG/SNC with symbolic vertex coordinates, sqrt atoms related by solver-proved scaling lemmas) and of the sparse identity assembler under a symbolic quadrature rule constrained by its moment equations (LRA after monomial abstraction); z3/cvc5",
+                text="Bounded symbolic verification: for DP0/P1 (meshes of 4 elements incl. segment spaces) and RWG/SNC (2-4 elements, every vertex position, incl. a segment space whose support does not start at element 0) the barycentric representation agrees with the original function at every point of each of the 6 sub-triangles for every coefficient vector; DUAL0/DUAL1 functions take their documented nodal values on closed meshes; P1 x DUAL0, DP0 x DUAL1 and P1 x DUAL1 mass matrices equal the exact integrals of the product of the bases for every quadrature rule exact to the product degree. BC/RBC are outside the claim. One defect repaired (P1 barycentric tables).",
+                ref="3/C10"),
     "C11": dict(cat="other", tech="path exploration of the topology routines with symbolic unbounded vertex ids (z3 LIA) + symbolic execution of geometry/refinement with symbolic coordinates (NRA with sqrt atoms, z3/cvc5)",
                 text="Bounded symbolic verification: shared-edge/vertex detection, adjacency rows, element-to-element counts and edge enumeration are decided for EVERY vertex numbering of two (three for counts, thorough) elements; geometric quantities for every non-degenerate triangle; refinement/barycentric children have 1/4 resp. 1/6 of the parent's oriented area for all vertex coordinates; derived tables of 8 base meshes are cross-checked concretely (auxiliary).",
                 ref="3/C11"),
